@@ -463,7 +463,7 @@ PROPS['C19'] = dict(
     assumptions=['left open by the property and therefore nondeterministic in DTSem: what a command of another type answers on a vacant key (expired String, emptied container), and Type / Get of such a key',
                  'an absent field/member/element may be reported as (nil, nil) or as key-not-found (both are "absent")',
                  'expiry is made deterministic with TTLs of -1 s and +1 h; scores are small integers',
-                 'each update is one batch on the engine: atomicity under crashes is C04\'s subject, not re-checked here'],
+                 'a process death inside an updating command leaves the key in its state before the command or in a state the command may leave (each update is one batch on the engine, C04); every third trace takes such images and continues on them'],
 )
 
 # ---- spec -> code: behaviours of the mechanism model, generated by TLC in simulation mode, stepped through the engine
